@@ -81,6 +81,11 @@ func runSolver(ctx context.Context, sd solverDef, file string, timeoutS int) (st
 // solveOne races the solvers on one obligation.  With all=true every solver
 // is run to completion and the answers are compared.
 func solveOne(o *Obligation, dir string, idx int, timeoutS int, all bool) *SolveResult {
+	if o.Vacuity {
+		// covers are satisfiability queries; "unknown" is not a failure, so keep them short
+		timeoutS = 3
+		all = false
+	}
 	script := o.Script() + "(get-model)\n"
 	file := filepath.Join(dir, fmt.Sprintf("o%04d.smt2", idx))
 	_ = os.WriteFile(file, []byte("; "+o.Name+"\n"+script), 0o644)
